@@ -303,6 +303,9 @@ func setPtraceOption(pid int) error {
 // kill all tracee according to pids
 func killAll(pgid int) {
 	unix.Kill(-pgid, unix.SIGKILL)
+	// right after the start the child may not have called setsid yet: there is no such process
+	// group and the kill above is lost; make sure the leader itself is hit
+	unix.Kill(pgid, unix.SIGKILL)
 }
 
 // collect died child processes
